@@ -1,10 +1,11 @@
 SPECIFICATION Spec
 CONSTANTS
   NB = 3
-  OpKinds = {"add", "addu", "rem", "sync"}
+  OpKinds = {"addu", "rem", "sync"}
   MaxLen = 3
   MaxLevel = 6
   Inits = {"one", "split"}
   Patterns = {"rand"}
+  Keeps = {TRUE, FALSE}
   Emit = "state"
 INVARIANTS EmitCase
